@@ -13,6 +13,7 @@ class Cap:
         self.panic = None; self.name = None; self.utf8 = True; self.codegen = None
         self.leaves = []          # dicts
         self.leafcb = {}
+        self.attrs = []
         self.dfa = None           # dict: start, has_empty, states{qid: dict(match, eoi, trans[(lo,hi,t)], dead)}
         self.graph = None         # dict: root, states{sid: dict(early, accept, eoi, edges[(t, [(lo,hi)])])}
         self.gerrs = []           # ('disamb',[..]) | ('nostart',) | ('empty', n)
@@ -54,6 +55,9 @@ def parse_cap(path):
                 c.leaves.append(dict(idx=int(m[1]), kind=m[2], prio=int(m[3]), cb=m[4] == '1', lit=m[5] == '1',
                                      isutf8=m[6] == '1', minlen=int(m[7]), default_prio=int(m[8]),
                                      greedy_all=m[9] == '1', src=unhex(m[10]).decode('utf8', 'replace'), hir=m[11]))
+            elif k == 'attr':
+                i, _, rest2 = rest.partition(' ')
+                c.attrs.append(dict(kv.split('=', 1) for kv in rest2.split() if '=' in kv))
             elif k == 'leafcb':
                 i, _, h = rest.partition(' ')
                 c.leafcb[int(i)] = unhex(h).decode('utf8', 'replace')
@@ -285,3 +289,64 @@ def utf8_product(dfa):
         P.setdefault(q, []).append(u)
     P[0] = list(range(8))        # the dead state paired with every non-rejecting UTF-8 state
     return P
+
+
+def reach_hint(dfa):
+    """q -> (pred, unit, depth): BFS over bytes from the start state, then end-of-input successors."""
+    H = {}
+    depth = {dfa.start: 0}
+    dq = deque([dfa.start])
+    while dq:
+        p = dq.popleft()
+        if p not in dfa.states:
+            continue
+        for lo, hi, t in dfa.states[p]['trans']:
+            if t != 0 and t not in depth:
+                depth[t] = depth[p] + 1; H[t] = (p, lo, depth[t]); dq.append(t)
+    for p in list(depth):
+        if p in dfa.states:
+            t = dfa.states[p]['eoi']
+            if t != 0 and t not in depth and t not in H:
+                H[t] = (p, 256, depth[p] + 1)
+    return H
+
+
+# ------------------------------------------------------------------------------------------------
+# HIR s-expressions -> Coq `re` terms (Regex/Re.v)
+# ------------------------------------------------------------------------------------------------
+def parse_sexpr(s):
+    toks = s.replace('(', ' ( ').replace(')', ' ) ').split()
+    pos = [0]
+
+    def rd():
+        t = toks[pos[0]]; pos[0] += 1
+        if t == '(':
+            out = []
+            while toks[pos[0]] != ')':
+                out.append(rd())
+            pos[0] += 1
+            return out
+        return t
+    return rd()
+
+
+def coq_re(x, max_ranges=24):
+    if x == 'E':
+        return 'REmpty'
+    h = x[0]
+    if h == 'L':
+        bs = b'' if x[1] == '-' else bytes.fromhex(x[1])
+        return '(RLit [%s])' % ';'.join(str(b) for b in bs)
+    if h in ('CU', 'CB'):
+        rs = [r.split('-') for r in x[1:]][:max_ranges]
+        return '(%s [%s])' % ('RClassU' if h == 'CU' else 'RClassB', ';'.join('(%s,%s)' % (a, b) for a, b in rs))
+    if h == 'K':
+        return 'RLook'
+    if h == 'R':
+        mx = 'None' if x[2] == 'inf' else '(Some %s)' % x[2]
+        return '(RRep %s %s %s %s)' % (x[1], mx, 'true' if x[3] == 'g' else 'false', coq_re(x[4], max_ranges))
+    if h == 'P':
+        return '(RCap %s)' % coq_re(x[1], max_ranges)
+    if h in ('C', 'A'):
+        return '(%s [%s])' % ('RCat' if h == 'C' else 'RAlt', ';'.join(coq_re(y, max_ranges) for y in x[1:]))
+    raise ValueError('bad hir ' + repr(x))
